@@ -110,7 +110,7 @@ func runOne(o op, dir string, n int) (r result) {
 		r.OutExists = true
 	}
 	r.Diag = logBuf.String()
-	capFile.Sync()
+
 	if b, err := os.ReadFile(capFile.Name()); err == nil {
 		r.Stdout = string(b)
 	}
